@@ -12,6 +12,7 @@ from . import common as C
 
 PROP = 'C01'
 LEVEL = 'exploration'
+CASE_HISTORIES = {'per_family': 5}          # picks include long encodings with every truncation point: keep the pair family small
 ASSUMPTIONS = ['field values come from the boundary alphabets listed in bounds; k = number of fields simultaneously away from the default transaction',
                'for encodings longer than the all-prefix limit the parser outcome is assumed uniform inside one field body (it reads field-by-field through ser_read)']
 
